@@ -306,7 +306,7 @@ func (ri *RInterp) inline(call *ast.CallExpr, callee *Func, s S, ents map[ast.Ex
 			}
 			// facts about fields of a struct value travel with it
 			if at := ri.term(arg); at != "" {
-				for _, k := range s.Keys() {
+				for k := range s.m {
 					for _, tag := range []string{"lb:", "ub:", "rl:", "rc:"} {
 						if strings.HasPrefix(k, tag+at+".") {
 							init = init.Set(tag+id+k[len(tag+at):], s.Get(k))
@@ -367,7 +367,7 @@ func (ri *RInterp) inline(call *ast.CallExpr, callee *Func, s S, ents map[ast.Ex
 		}
 		st := e.State
 		// results
-		for _, k := range st.Keys() {
+		for k := range st.m {
 			switch {
 			case strings.HasPrefix(k, pre):
 				st = st.Set("re:"+pos+"#"+k[len(pre):], st.Get(k)).Del(k)
@@ -717,7 +717,7 @@ func rIsInt(t types.Type) bool {
 
 // rHasTerm reports whether any integer fact about term t is present.
 func rHasTerm(s S, t string) bool {
-	for _, k := range s.Keys() {
+	for k := range s.m {
 		for _, tag := range []string{"lb:", "ub:", "rl:", "rc:", "rg:"} {
 			if strings.HasPrefix(k, tag+t) {
 				return true
@@ -730,6 +730,9 @@ func rHasTerm(s S, t string) bool {
 // cond evaluates a condition, executing its calls in short-circuit order and
 // refining the state on each edge.
 func (ri *RInterp) cond(c ast.Expr, s S) (t, f []S) {
+	if fs, ok := ri.F.Prog.Parent(ri.F.File, c).(*ast.ForStmt); ok && fs.Cond == c {
+		s = rScopeKill(s, int(fs.Body.Pos()), int(fs.Body.End()))
+	}
 	for _, r := range ri.evalCond(c, s) {
 		if r.v {
 			t = append(t, r.s)
@@ -926,6 +929,7 @@ func (ri *RInterp) other(br Branch, s S) (t, f []S) {
 		}
 	case BrRange:
 		rs := br.Range
+		s = rScopeKill(s, int(rs.Body.Pos()), int(rs.Body.End()))
 		ts := s
 		kill := func(e ast.Expr) *types.Var {
 			if e == nil {
